@@ -1,9 +1,11 @@
 package main
 
-// Every entry of an apply call is applied: the loop in Update visits the indices 0 … len-1 of the
-// entries it was given, each iteration crosses the command step, and the loop cannot be left with
-// success from inside an iteration. How dragonboat cuts the log into apply calls differs between
-// replicas and runs, so an entry skipped "at the end of a call" is skipped on one replica only.
+// Full traversal of element loops. Every entry of an apply call is applied: the loop in Update
+// visits the indices 0 … len-1 of the entries it was given, each iteration crosses the command
+// step, and the loop cannot be left with success from inside an iteration. How dragonboat cuts
+// the log into apply calls differs between replicas and runs, so an entry skipped "at the end of
+// a call" is skipped on one replica only. The same shape rule is applied to the loops over the
+// commands of a sequence, the pairs of a batch and the operations of a transaction branch.
 
 import (
 	"go/constant"
@@ -13,94 +15,95 @@ import (
 	"golang.org/x/tools/go/ssa"
 )
 
-func applyLoopComplete(w *World, r *Report, up *ssa.Function, isStep func(ssa.Instruction) bool, id, slug string) {
-	ob := r.Ob(id, slug, "Update: the command step sits in a loop whose counter starts so that the first entry used is entries[0], advances by one, and stays in the loop exactly while the entry index is below len(entries); every way from the loop head back to it crosses the command step; no success return is reachable from an exit of the loop other than the head's", "an apply call that stops early or skips an entry drops committed commands - and since replicas cut the log into apply calls differently, they drop different ones")
-	if up == nil || len(up.Params) < 2 {
-		ob.Undecided("anchor", "Update not found")
-		return
-	}
-	entries := up.Params[1]
-	var step ssa.Instruction
-	eachInstr(up, func(in ssa.Instruction) {
-		if isStep(in) && step == nil {
-			step = in
+// sliceLoop describes a counted loop that indexes a slice by its counter.
+type sliceLoop struct {
+	Fn      *ssa.Function
+	Head    *ssa.BasicBlock
+	Body    map[*ssa.BasicBlock]bool
+	Slice   ssa.Value // the indexed slice
+	Idx     ssa.Value // the index value used
+	Counter *ssa.Phi
+	Off     int64 // index = counter + Off
+}
+
+// sliceLoops finds the counted loops of fn that index a slice (or string) by the loop counter.
+func sliceLoops(fn *ssa.Function) []*sliceLoop {
+	var out []*sliceLoop
+	seen := map[*ssa.BasicBlock]bool{}
+	for _, b := range fn.Blocks {
+		h, body := loopOf(b)
+		if h == nil || seen[h] {
+			continue
 		}
-	})
-	if step == nil {
-		ob.Undecided("anchor/step", "no command step in "+FnName(up))
-		return
-	}
-	h, body := loopOf(step.Block())
-	if h == nil {
-		ob.Violate("no-entry-loop", step.Pos(), "the command step is not inside a loop over the entries")
-		return
-	}
-	ob.Site(blockPos(h), "loop over the entries of an apply call in "+FnName(up))
-	// the entry index: index of entries[...] uses inside the loop
-	var idxV ssa.Value
-	same := true
-	eachInstr(up, func(in ssa.Instruction) {
-		if !body[in.Block()] {
-			return
-		}
-		var x, i ssa.Value
-		switch a := in.(type) {
-		case *ssa.IndexAddr:
-			x, i = a.X, a.Index
-		case *ssa.Index:
-			x, i = a.X, a.Index
-		default:
-			return
-		}
-		if x != ssa.Value(entries) {
-			return
-		}
-		if idxV == nil {
-			idxV = i
-		} else if !sameValue(idxV, i) {
-			same = false
-		}
-	})
-	if idxV == nil {
-		ob.Undecided("shape/index", "the loop does not index the entries")
-		return
-	}
-	if !same {
-		ob.Violate("entry-index-varies", step.Pos(), "one iteration uses entries at different positions")
-	}
-	// the counter: integer phi in the loop head with an edge from outside and one from inside
-	var counter *ssa.Phi
-	for _, in := range h.Instrs {
-		phi, ok := in.(*ssa.Phi)
-		if !ok {
-			break
-		}
-		if isIntegerType(phi.Type()) && counter == nil {
+		seen[h] = true
+		for _, in := range h.Instrs {
+			phi, ok := in.(*ssa.Phi)
+			if !ok {
+				break
+			}
+			if !isIntegerType(phi.Type()) {
+				continue
+			}
 			ctx := &ExprCtx{Alias: map[ssa.Value]string{phi: "cnt"}}
-			if lin, ok := ctx.linear(idxV); ok && lin.T["cnt"] == 1 && len(lin.T) == 1 {
-				counter = phi
+			var sl *sliceLoop
+			eachInstr(fn, func(x ssa.Instruction) {
+				if !body[x.Block()] || sl != nil {
+					return
+				}
+				var xs, i ssa.Value
+				switch a := x.(type) {
+				case *ssa.IndexAddr:
+					xs, i = a.X, a.Index
+				case *ssa.Index:
+					xs, i = a.X, a.Index
+				default:
+					return
+				}
+				if _, isSlice := xs.Type().Underlying().(*types.Slice); !isSlice {
+					return
+				}
+				// the slice must be loop invariant (defined outside the loop)
+				if def, isI := xs.(ssa.Instruction); isI && body[def.Block()] {
+					return
+				}
+				lin, ok := ctx.linear(i)
+				if !ok || len(lin.T) != 1 || lin.T["cnt"] != 1 {
+					return
+				}
+				sl = &sliceLoop{Fn: fn, Head: h, Body: body, Slice: xs, Idx: i, Counter: phi, Off: lin.C}
+			})
+			if sl != nil {
+				out = append(out, sl)
+				break
 			}
 		}
 	}
-	if counter == nil {
-		ob.Undecided("shape/counter", "the entry index `"+Expr(idxV)+"` is not a loop counter")
-		return
+	return out
+}
+
+// checkFullTraversal: the loop visits indices 0 … len(slice)-1 one by one, the slice is not a
+// sub-slice, every iteration crosses a step (if given), and no success return is reachable from
+// an exit of the loop other than the head's.
+func checkFullTraversal(w *World, ob *Ob, l *sliceLoop, what string, isStep func(ssa.Instruction) bool) {
+	fn, h, body, counter := l.Fn, l.Head, l.Body, l.Counter
+	at := FnName(fn)
+	ob.Site(blockPos(h), "loop over "+what+" in "+at)
+	if s, isSub := l.Slice.(*ssa.Slice); isSub {
+		ob.Violate("partial-range@"+at, s.Pos(), "the loop over "+what+" ranges over the sub-slice `"+Expr(s)+"`: the elements outside it are never looked at")
 	}
 	ctx := &ExprCtx{Alias: map[ssa.Value]string{counter: "cnt"}}
-	lin, _ := ctx.linear(idxV)
-	c := lin.C // entry index = cnt + c
+	c := l.Off
 	for i, e := range counter.Edges {
 		pred := h.Preds[i]
 		if !body[pred] {
 			k, ok := e.(*ssa.Const)
 			if !ok || k.Value == nil {
-				ob.Violate("first-entry", counter.Pos(), "the loop counter does not start at a constant")
+				ob.Violate("first-element@"+at, counter.Pos(), "the counter of the loop over "+what+" does not start at a constant")
 				continue
 			}
 			v, _ := constant.Int64Val(constant.ToInt(k.Value))
-			ob.Site(counter.Pos(), "first entry used: entries["+itoa(int(v+c))+"]")
 			if v+c != 0 {
-				ob.Violate("first-entry", counter.Pos(), "the first entry applied is entries["+itoa(int(v+c))+"], not entries[0]")
+				ob.Violate("first-element@"+at, counter.Pos(), "the first of the "+what+" looked at is number "+itoa(int(v+c))+", not 0")
 			}
 		} else {
 			bo, ok := e.(*ssa.BinOp)
@@ -111,44 +114,41 @@ func applyLoopComplete(w *World, r *Report, up *ssa.Function, isStep func(ssa.In
 				}
 			}
 			if !one {
-				ob.Violate("counter-step", counter.Pos(), "the loop counter is advanced by `"+Expr(e)+"`, not by one: entries are skipped or repeated")
+				ob.Violate("counter-step@"+at, counter.Pos(), "the counter of the loop over "+what+" is advanced by `"+Expr(e)+"`, not by one: elements are skipped or repeated")
 			}
 		}
 	}
-	// stay in the loop exactly while cnt + c < len(entries)  ⇔  len(entries) - cnt >= c+1
-	lenT := "len($1)"
+	// stay in the loop exactly while cnt + c < len(slice)  ⇔  len(slice) - cnt >= c+1
+	lenT := "len(" + ctx.Expr(l.Slice) + ")"
 	want, _ := intLit(Lin{T: map[string]int64{lenT: 1, "cnt": -1}, C: -(c + 1), nn: map[string]bool{}}, token.GEQ)
 	okBound := false
 	for k, s := range h.Succs {
 		if !body[s] || s == h {
 			continue
 		}
-		for _, l := range ctx.EdgeLits(h, k) {
-			if l.Kind == "int" && l.Terms == want.Terms {
-				ob.Site(blockPos(s), "loop continues while "+l.String())
-				if l.Implies(want) && want.Implies(l) {
-					okBound = true
-				} else {
-					ob.Violate("loop-bound", blockPos(h), "the loop continues while `"+l.String()+"`; visiting every entry needs `"+want.String()+"`")
-					okBound = true
+		for _, lt := range ctx.EdgeLits(h, k) {
+			if lt.Kind == "int" && lt.Terms == want.Terms {
+				okBound = true
+				if !(lt.Implies(want) && want.Implies(lt)) {
+					ob.Violate("loop-bound@"+at, blockPos(h), "the loop over "+what+" continues while `"+lt.String()+"`; visiting every element needs `"+want.String()+"`")
 				}
 			}
 		}
 	}
 	if !okBound {
-		ob.Undecided("shape/bound", "the loop head does not compare the entry index with len(entries)")
+		ob.Undecided("shape/bound@"+at, "the head of the loop over "+what+" does not compare the index with "+lenT)
 	}
-	// each iteration crosses the step
 	inBody := func(b *ssa.BasicBlock, k int) bool { return body[b.Succs[k]] }
-	for _, s := range h.Succs {
-		if !body[s] || s == h {
-			continue
-		}
-		if p := (&Walk{Barrier: isStep, Target: func(x ssa.Instruction) bool { return x.Block() == h }, EdgeOK: inBody}).Find(Loc{s, 0}); p != nil {
-			ob.Violate("entry-not-applied", blockPos(s), "an iteration can pass without the command step: that entry is acknowledged without having been applied", w.PathString(p)...)
+	if isStep != nil {
+		for _, s := range h.Succs {
+			if !body[s] || s == h {
+				continue
+			}
+			if p := (&Walk{Barrier: isStep, Target: func(x ssa.Instruction) bool { return x.Block() == h }, EdgeOK: inBody}).Find(Loc{s, 0}); p != nil {
+				ob.Violate("element-not-applied@"+at, blockPos(s), "an iteration of the loop over "+what+" can pass without its step: that element is acknowledged without having been applied", w.PathString(p)...)
+			}
 		}
 	}
-	// no successful exit from inside an iteration
 	for b := range body {
 		if b == h {
 			continue
@@ -159,12 +159,58 @@ func applyLoopComplete(w *World, r *Report, up *ssa.Function, isStep func(ssa.In
 			}
 			for _, in := range (&Walk{}).ReachableInstrs(Loc{s, 0}) {
 				if ret, ok := in.(*ssa.Return); ok && !isErrorReturn(ret) {
-					ob.Violate("batch-cut-short", blockPos(s), "the loop over the entries can be left with success from inside an iteration: the remaining entries of the apply call are never applied")
+					ob.Violate("cut-short@"+at, blockPos(s), "the loop over "+what+" can be left with success from inside an iteration: the remaining elements are never looked at")
 				}
 			}
 		}
 	}
-	ob.NeedFloor(3)
+}
+
+func applyLoopComplete(w *World, r *Report, a *FsmA, id, slug string) {
+	ob := r.Ob(id, slug, "Update: the command step sits in a loop whose counter starts so that the first entry used is entries[0], advances by one, and stays in the loop exactly while the entry index is below len(entries); every way from the loop head back to it crosses the command step; no success return is reachable from an exit of the loop other than the head's. The same for every counted loop of the apply path (state-machine package, compare helper excluded) that indexes a slice of commands, pairs or operations: the whole slice (not a sub-slice) is visited from 0 to len-1 and the loop is not left with success from inside", "an apply call that stops early or skips an entry drops committed commands - and since replicas cut the log into apply calls differently, they drop different ones; a sequence, batch or transaction branch that is only partly applied diverges from the leader's result")
+	up := a.Update
+	if up == nil || len(up.Params) < 2 {
+		ob.Undecided("anchor", "Update not found")
+		return
+	}
+	nUp := 0
+	for _, l := range sliceLoops(up) {
+		if l.Slice != ssa.Value(up.Params[1]) {
+			continue
+		}
+		nUp++
+		checkFullTraversal(w, ob, l, "the entries of an apply call", a.isHandlerStep)
+	}
+	if nUp == 0 {
+		ob.Violate("no-entry-loop", up.Pos(), "Update has no counted loop over the entries it was given")
+	}
+	// element loops of the handlers
+	cmp := a.CompareHelper()
+	skip := map[*ssa.Function]bool{}
+	if cmp != nil {
+		for _, f := range withClosures(cmp) {
+			skip[f] = true
+		}
+	}
+	for _, fn := range sortedFuncs(a.applyReach()) {
+		if fn == up || skip[fn] || !isFsmFunc(fn) || isGenerated(fn) || fn.Blocks == nil {
+			continue
+		}
+		for _, l := range sliceLoops(fn) {
+			et := l.Slice.Type().Underlying().(*types.Slice).Elem()
+			if !typeInPkg(et, pbPkg) {
+				continue
+			}
+			checkFullTraversal(w, ob, l, "`"+Expr(l.Slice)+"` ("+typeString(et)+")", nil)
+		}
+	}
+	ob.NeedFloor(4)
+}
+
+// typeInPkg: t (or what it points to) is a named type of the package.
+func typeInPkg(t types.Type, pkg string) bool {
+	n, ok := deref(t).(*types.Named)
+	return ok && n.Obj().Pkg() != nil && n.Obj().Pkg().Path() == pkg
 }
 
 // isHandlerStep: the invoke of a command handler (method of the command interface).
